@@ -1,4 +1,5 @@
 import Emmet.Spec.C06
+import EmmetProofs.Written
 /-! # C06 — every built-in stylesheet snippet is reachable by its own key (whole generated table, re-checked whenever
 `emmet/snippets/css.py` changes) -/
 namespace EmmetProps
@@ -11,5 +12,12 @@ theorem C06_keys : keysReachable (sortedKeys Gen.cssSnippets) = true := by decid
 
 /-- the table is not empty (230 keys on the pinned tree) -/
 example : 200 < (sortedKeys Gen.cssSnippets).length := by decide +kernel
+
+/-- no key is claimed by two entries of the REGENERATED stylesheet snippet file as written (`k1|k2: body`): a key selects "that snippet
+and no other" already at the level of the source table -/
+theorem C06_names_distinct : ((Snip.flatten Gen.cssWritten).map (·.1)).Nodup := Snip.distinct_spec _ Snip.css_distinct
+
+/-- the keys of the table the matcher runs on are exactly the written keys, in order -/
+theorem C06_names_from_source : (Snip.flatten Gen.cssWritten).map (·.1) = Gen.cssSnippets.map (·.1) := Snip.css_names
 
 end EmmetProps
